@@ -328,6 +328,8 @@ type c17Run struct {
 	hasVec  bool
 	big     bool
 	samples []any
+	prevRes []models.SearchResult // the previous search answer as it was handed out, and a copy of its ids
+	prevIds []uuid.UUID
 }
 
 func (h *c17Run) note(k string) { h.kinds = append(h.kinds, k) }
@@ -468,6 +470,20 @@ func (h *c17Run) search(rq requestSpec) error {
 		return err
 	}
 	res, err := c17SafeSearch(h.cl.nodes[h.entry], h.col, rq.model())
+	// an answer already handed to its caller stays what it was: the previous answer of this history is compared with
+	// the copy taken when it arrived (a buffer the node reuses for later searches would show here)
+	for i := range h.prevRes {
+		if i >= len(h.prevIds) || h.prevRes[i].Id != h.prevIds[i] {
+			return fmt.Errorf("answer modified: the previous search answer changed after a later search")
+		}
+	}
+	h.prevRes, h.prevIds = nil, nil
+	if err == nil {
+		h.prevRes = res
+		for _, r := range res {
+			h.prevIds = append(h.prevIds, r.Id)
+		}
+	}
 	out := "(QError 9)"
 	if err == nil {
 		var perr error
@@ -979,7 +995,7 @@ func c17Unexpected(msg string) int {
 	for _, p := range []struct {
 		sub  string
 		what int
-	}{{"CreateCollection:", 1}, {"GetCollection:", 2}, {"InsertPoints:", 3}, {"SearchPoints:", 4}, {"DeleteCollection:", 5}, {"GetShardsInfo:", 6}, {"reading shard", 7}, {"direct shard search", 7}} {
+	}{{"CreateCollection:", 1}, {"GetCollection:", 2}, {"InsertPoints:", 3}, {"SearchPoints:", 4}, {"DeleteCollection:", 5}, {"GetShardsInfo:", 6}, {"reading shard", 7}, {"direct shard search", 7}, {"answer modified", 8}} {
 		if strings.Contains(msg, p.sub) {
 			return p.what
 		}
